@@ -14,13 +14,14 @@ def run(ctx):
         raise vlib.MachineryError("Lifecycle.tla violates its own invariant %s" % r.violation)
     # 2. all environment histories up to the bound, replayed against the real code, traces validated
     # several datagrams per processing call, callbacks starting requests whose transmission fails
+    tcpfail = {"module": "GenTcpFail.tla", "cfg": "GenTcpFail.cfg", "name": "tcpfail"}   # write failures on TCP connections
     batch = {"module": "GenBatch.tla", "cfg": "GenBatch.cfg", "name": "batch"}
     if ctx.quick:
         gens = [{"module": "Gen_C01.tla", "cfg": "Gen_C01_quick.cfg", "name": "bfs"},
-                {"module": "Gen_C01.tla", "cfg": "Gen_C01_deep.cfg", "name": "deep"}, batch]
+                {"module": "Gen_C01.tla", "cfg": "Gen_C01_deep.cfg", "name": "deep"}, batch, tcpfail]
     else:
         gens = [{"module": "Gen_C01.tla", "cfg": "Gen_C01_thorough.cfg", "name": "bfs"},
-                {"module": "Gen_C01.tla", "cfg": "Gen_C01_deep.cfg", "name": "deep"}, batch,
+                {"module": "Gen_C01.tla", "cfg": "Gen_C01_deep.cfg", "name": "deep"}, batch, tcpfail,
                 {"module": "Gen_C01.tla", "cfg": "Gen_C01_sim.cfg", "name": "sim", "simulate": 1500, "depth": 9}]
     simlib.engine_check(ctx, gens, FACETS, selftests=mutators.LIFECYCLE)
     ctx.assumptions += ["nested calls from callbacks are restricted to what C01 names (new requests, ares_cancel); no call is made "
